@@ -64,7 +64,11 @@ let run_x (sg : bool) (init0 : string) (changes : change list) (evs : string lis
   | Some ((rs, idx), log) ->
     let keys l = if l = [] then "-" else String.concat "," (List.map (fun k -> string_of_int (int_of_n k)) l) in
     let puts = List.filter_map (function OPut (_, nw) -> Some (if nw = [] then "e" else keys (List.map (fun d -> d.dkey) nw)) | _ -> None) log in
-    Printf.sprintf "ACC R %s I %s U %s" (show_results rs)
+    let hidden = List.map (fun c -> int_of_n (match c with Add d -> d.dpay | Remove d -> d.dpay) = 9) changes in
+    let rs_s = String.concat "," (List.mapi (fun t r ->
+      if List.nth hidden t then Printf.sprintf "%d=*" t
+      else match r with Some r -> Printf.sprintf "%d=%s" t (show_res r) | None -> Printf.sprintf "%d=pending" t) rs) in
+    Printf.sprintf "ACC R %s I %s U %s" rs_s
       (match idx with None -> "none" | Some l -> keys l) (dash (String.concat ";" puts))
 
 let cap_num = function CapUnknown -> 0 | CapSupported -> 1 | CapUnsupported -> 2
